@@ -32,7 +32,7 @@ ACES_IOS = [
     "permit ip object-group G1 any", "permit ip object-group G2 any", "permit ip object-group G3 any", "permit ip object-group GNC any",
     "permit ip object-group EMPTY any", "permit ip any object-group G1", "permit ip any object-group G2",
     "permit tcp any any eq 80", "permit tcp any any eq 80 443", "permit tcp any any range 80 90", "permit tcp any any gt 1023",
-    "permit tcp any any lt 1", "permit tcp any any gt 65535", "permit tcp any any neq 80", "permit tcp any any range 1 65535",
+    "permit tcp any any lt 1", "permit tcp any any gt 65535", "permit tcp any any lt 0", "permit tcp any lt 0 any", "permit tcp any any gt 65534", "permit tcp any any neq 80", "permit tcp any any range 1 65535",
     "permit tcp any eq 80 any", "permit tcp any lt 1 any", "permit tcp any range 80 90 any", "permit tcp any eq 80 any eq 80",
     "permit udp any any eq 53", "permit udp any any range 1 65535",
     "permit tcp any any ack", "permit tcp any any ack syn", "permit tcp any any syn", "permit tcp any any eq 80 ack", "permit tcp any any log",
@@ -40,6 +40,7 @@ ACES_IOS = [
     "permit tcp host 10.0.0.1 eq 80 10.0.0.0 0.0.0.255 eq 443 ack",
     "permit tcp any any syn fin", "permit tcp any any fin", "permit tcp any any ack syn fin", "permit 200 any any", "permit 201 any any", "permit 4 any any",
     "permit ipip any any", "permit udp any any", "permit 17 any any eq 53",
+    "permit ip object-group G3 object-group GD", "permit ip host 10.0.0.1 host 10.0.0.1", "permit ip host 10.0.0.1 10.1.0.0 0.0.0.255", "permit ip object-group G1 object-group G2",
     "permit ip 10.0.0.0 128.0.0.255 any", "permit ip 138.0.0.0 0.0.0.255 any", "permit ip 10.0.0.0 0.0.1.0 any", "permit ip 10.0.1.0 0.0.0.0 any",
 ]
 
@@ -47,7 +48,7 @@ ACES_IOS = [
 def to_nxos(line):
     rep = {"host 10.0.0.1": "10.0.0.1/32", "10.0.0.0 0.0.0.255": "10.0.0.0/24", "10.0.0.0 0.0.1.255": "10.0.0.0/23",
            "10.0.1.0 0.0.0.3": "10.0.1.0/30", "10.0.0.0 0.0.0.3": "10.0.0.0/30", "object-group": "addrgroup", "eq 80 443": "eq 443", "permit ipip": "permit 94", "138.0.0.0 0.0.0.255": "138.0.0.0/24",
-           "10.0.1.0 0.0.0.0": "10.0.1.0/32"}
+           "10.0.1.0 0.0.0.0": "10.0.1.0/32", "10.1.0.0 0.0.0.255": "10.1.0.0/24"}
     for a, b in rep.items():
         line = line.replace(a, b)
     return line
@@ -89,11 +90,17 @@ def involves(line, kind, platform):
     if kind == "addrgroup":
         return "object-group" in toks or "addrgroup" in toks
     # nc_wildcard: an `A.B.C.D W.X.Y.Z` pair whose mask is not contiguous
-    for a, b in zip(toks, toks[1:]):
-        if cisco_ref.is_ip(a) and cisco_ref.is_ip(b):
-            m = cisco_ref.parse_ip(b)
+    k = 0
+    while k < len(toks):
+        if toks[k] == "host":
+            k += 2                                  # `host A.B.C.D`: the next token is an address, not a mask
+        elif cisco_ref.is_ip(toks[k]) and k + 1 < len(toks) and cisco_ref.is_ip(toks[k + 1]):
+            m = cisco_ref.parse_ip(toks[k + 1])
             if m & (m + 1):
                 return True
+            k += 2
+        else:
+            k += 1
     return False
 
 
@@ -103,3 +110,22 @@ def group_free(line):
 
 def bottom_ports_nonempty(sem):
     return (sem.sports is None or len(sem.sports) > 0) and (sem.dports is None or len(sem.dports) > 0)
+
+
+def config_text(platform, lines):
+    """a device configuration that defines every group of GROUPS and one ACL with the given entries (IOS object-groups spell members with
+    subnet masks, so the non-contiguous GNC cannot be written there: entries that use it are left out)"""
+    out = []
+    for name, members in GROUPS[platform].items():
+        if platform == "ios" and name == "GNC":
+            continue
+        out.append(f"object-group network {name}" if platform == "ios" else f"object-group ip address {name}")
+        for m in members:
+            toks = m.split()
+            if platform == "ios" and len(toks) == 2 and toks[0] != "host":
+                m = toks[0] + " " + ".".join(str(255 - int(x)) for x in toks[1].split("."))
+            out.append(" " + m)
+    out.append("ip access-list extended A" if platform == "ios" else "ip access-list A")
+    kept = [l for l in lines if not (platform == "ios" and "GNC" in l.split())]
+    out += [" " + l for l in kept]
+    return "\n".join(out), kept
